@@ -69,7 +69,13 @@ func (o *OperatorPartition) ExclusivelyOwnsTable(uri string, startKey []byte, en
 		}
 	}
 
-	return !neighborNeedsTable, err
+	// A neighbor that could not be asked may still need the table: without a
+	// definite answer from every neighbor the table is not exclusively owned.
+	if err != nil {
+		return false, err
+	}
+
+	return !neighborNeedsTable, nil
 }
 
 var _ kv.DataOwnership = &OperatorPartition{}
